@@ -413,6 +413,9 @@ func init() {
 			z := c.BVConst(64, 0)
 			return done(c.BOr(c.BAnd(c.Cmp(term.OpSLe, z, sgn), pos), c.BAnd(c.Cmp(term.OpSLe, sgn, z), neg)))
 		},
+		"math/rand.Intn":   randBelow,
+		"math/rand.Int63n": randBelow,
+		"math/rand.Int31n": randBelow,
 		"math/rand.Float64": func(e *Exec, t *Thread, a []Value, g bool) (Value, bool) {
 			if e.Cfg.RandChoice {
 				// representative values instead of a symbolic float (keeps virtual time concrete)
@@ -1161,6 +1164,32 @@ func (e *Exec) netPeerAddr(typ string) Ptr {
 	st.F[0] = Slice{Arr: ip, Len: 16, Cap: 16}
 	st.F[1] = e.C.BVConst(64, 3671)
 	return Ptr{Obj: e.newObj(ua, st)}
+}
+
+// randBelow models math/rand.Intn / Int63n / Int31n: an arbitrary r with 0 <= r < n (the documented
+// range; n <= 0 panics like the library). With RandChoice the value is one of {0, n/2, n-1}, which keeps
+// virtual time concrete.
+func randBelow(e *Exec, t *Thread, a []Value, g bool) (Value, bool) {
+	n := a[0].(*term.T)
+	w := n.Sort.W
+	c := e.C
+	if !e.Branch(c.Cmp(term.OpSLt, c.BVConst(w, 0), n), "rand.n") {
+		e.goPanic("invalid argument to Intn")
+	}
+	if e.Cfg.RandChoice {
+		k := e.Choose(3, "rand")
+		e.recordConcreteNondet("choice", int64(k))
+		switch k {
+		case 0:
+			return done(c.BVConst(w, 0))
+		case 1:
+			return done(c.Bin(term.OpUDiv, n, c.BVConst(w, 2)))
+		}
+		return done(c.Bin(term.OpSub, n, c.BVConst(w, 1)))
+	}
+	r := e.newNondet(w, "u64")
+	e.Assume(c.BAnd(c.Cmp(term.OpSLe, c.BVConst(w, 0), r), c.Cmp(term.OpSLt, r, n)))
+	return done(r)
 }
 
 func netClose(e *Exec, t *Thread, a []Value, g bool) (Value, bool) {
